@@ -436,6 +436,13 @@ def run(chk, repo, tier):
             chk.ob('C08-f', 'B1/B2', cls.key, 'multiply/__init__ chain resolves and binds', True,
                    f'{fm.key} and the constructor chain resolve', fm.loc())
 
+    # a plane type handed to a refining class (Grism(..., ptype=lentil.image)) reaches the constructor that stores it
+    from .common import ctor_forwarding_rule as _ctor_forwarding_rule8
+    _ctor_forwarding_rule8(chk, repo, 'C08-d')
+    # a product owns its tilt list: a tilt plane applied to the product must not turn the wavefront it came from into one
+    # that the FFT propagator refuses
+    from .common import mul_concat as _mul_concat8
+    _mul_concat8(chk, repo, 'C08-g')
     from .c07 import product_shape_rule
     product_shape_rule(chk, repo, 'C08-f')
     defined_attribute_rule(chk, repo, 'C08-f')
